@@ -169,13 +169,13 @@ theorem C11_tabs (l t : List Char) (hl : ∀ c ∈ l, c ≠ '\n' ∧ c ≠ '\r')
 /-! ## the reader refines the Spec -/
 
 /-- **C11_reader_refines_spec**: on a file whose lines are `GoodLine`s (the named exclusions: white space other
-    than the blank, a line of exactly the limit, `#` in columns 1-5, `&` directly before `$`, a line holding only
-    `$…` or `&`, a `$` glued to a word) and that is well terminated (no data behind the blank line that ends the
-    data block: known finding C11-F1), the inputs the model of `read_data` yields — block and words, read cards and
-    errors included — are the Spec reader's, for every starting block (a file pulled in by a read card starts in the
-    block of the card). -/
+    than the blank, a line of exactly the limit, a line that begins with `#` in columns 1-5, `&` directly before `$`,
+    a line holding only `$…` or `&`, a `$` glued to the first word) the inputs the model of `read_data` yields — block
+    and words, read cards and errors included — are the Spec reader's, for every starting block (a file pulled in by a
+    read card starts in the block of the card).  Nothing is assumed about what follows the blank line that ends the
+    data block: since fixes c74af97 / fec410e the code stops reading there, as the Spec does (was: finding C11-F1). -/
 theorem C11_reader_refines_spec (limit : Nat) (cfg : Cfg) (hl : cfg.lineLength = limit)
-    (mlines : List Str) (slines : List Spec.Line) (h : FileOK limit cfg.firstBlock.value mlines slines) :
+    (mlines : List Str) (slines : List Spec.Line) (h : FileOK limit mlines slines) :
     proj (readData cfg mlines) =
       Spec.cutS (Spec.fileStream limit (joinPath cfg.topDir) cfg.chain cfg.firstBlock.value slines) :=
   fileStream_ok cfg hl mlines slines h
@@ -193,18 +193,52 @@ theorem inputsOf_map_notRead (resolve : Spec.Word → List Char) (chain : List (
 /-- … in particular, in a file without read cards (the domain of C11: the core grammar excludes them) the model
     yields exactly the Spec's inputs, in order, each in its block, with its words -/
 theorem C11_reader_inputs (limit : Nat) (cfg : Cfg) (hl : cfg.lineLength = limit)
-    (mlines : List Str) (slines : List Spec.Line) (h : FileOK limit cfg.firstBlock.value mlines slines)
+    (mlines : List Str) (slines : List Spec.Line) (h : FileOK limit mlines slines)
     (hnr : ∀ i ∈ Spec.inputsFrom limit cfg.firstBlock.value slines, Spec.cardOf i.words = .notRead) :
     proj (readData cfg mlines) = (Spec.inputsFrom limit cfg.firstBlock.value slines).map .inp := by
   rw [C11_reader_refines_spec limit cfg hl mlines slines h]
   unfold Spec.fileStream
   exact inputsOf_map_notRead _ _ _ hnr
 
+/-! ### behind the blank line that ends the data block nothing is read -/
+
+/-- the loop of `read_data` ends within `ls`: by the `break` at the blank line that ends the data block, or by a raise -/
+def stopsWithin (cfg : Cfg) : LState → List Str → Bool
+  | _, [] => false
+  | st, l :: ls =>
+    if hasRaise (stepLine cfg st l).1 then true
+    else if stopsAfter cfg l (stepLine cfg st l).2 then true
+    else stopsWithin cfg (stepLine cfg st l).2 ls
+
+/-- **C11_after_terminator** (repaired finding C11-F1): once the blank line that ends the data block has been read —
+    counted from the block the file starts in — the model of `read_data` yields the same events whatever follows:
+    **any** lines at all (not only well-formed ones) behind it are never looked at. -/
+theorem C11_after_terminator (cfg : Cfg) (ls junk : List Str) :
+    ∀ st, stopsWithin cfg st ls = true → goLines cfg st (ls ++ junk) = goLines cfg st ls := by
+  induction ls with
+  | nil => intro st h; simp [stopsWithin] at h
+  | cons l ls ih =>
+    intro st h
+    simp only [List.cons_append, goLines]
+    unfold stopsWithin at h
+    split
+    · rfl
+    · rename_i hr
+      simp only [hr, Bool.false_eq_true, ↓reduceIte] at h
+      split
+      · rfl
+      · rename_i hs
+        simp only [hs, Bool.false_eq_true, ↓reduceIte] at h
+        rw [ih _ h]
+
+theorem C11_after_terminator_readData (cfg : Cfg) (ls junk : List Str) (h : stopsWithin cfg (initState cfg) ls = true) :
+    readData cfg (ls ++ junk) = readData cfg ls := C11_after_terminator cfg ls junk _ h
+
 /-- **C11_reader_layout** (reader half of C11): two files — however differently laid out — in which the Spec reader
     finds the same inputs give the same inputs in the model of `read_data`, word for word -/
 theorem C11_reader_layout (limit : Nat) (cfg : Cfg) (hl : cfg.lineLength = limit)
     (m1 m2 : List Str) (s1 s2 : List Spec.Line)
-    (h1 : FileOK limit cfg.firstBlock.value m1 s1) (h2 : FileOK limit cfg.firstBlock.value m2 s2)
+    (h1 : FileOK limit m1 s1) (h2 : FileOK limit m2 s2)
     (hsame : Spec.inputsFrom limit cfg.firstBlock.value s1 = Spec.inputsFrom limit cfg.firstBlock.value s2) :
     proj (readData cfg m1) = proj (readData cfg m2) := by
   rw [C11_reader_refines_spec limit cfg hl m1 s1 h1, C11_reader_refines_spec limit cfg hl m2 s2 h2]
@@ -292,7 +326,7 @@ theorem C11_reader_render (limit : Nat) (cfg : Cfg) (hl : cfg.lineLength = limit
     proj (readData cfg ((Spec.renderInputs items).map (· ++ ['\n']))) =
       Spec.cutS ((items.map (fun it => (⟨cfg.firstBlock.value, it.2⟩ : Spec.Inp))).map
         (Spec.outOf (joinPath cfg.topDir) cfg.chain)) := by
-  have hf := fileOK_render limit cfg.firstBlock.value (block_lt _) (layInputs items) hv.2
+  have hf := fileOK_render limit (layInputs items) hv.2
   have hm : (Spec.renderInputs items).map (· ++ ['\n']) = (layInputs items).map (fun pl => pl.str ++ ['\n']) := by
     rw [renderInputs_eq, List.map_map]; rfl
   rw [hm, C11_reader_refines_spec limit cfg hl _ _ hf, ← renderInputs_eq]
@@ -325,10 +359,10 @@ def exLayoutB : List Nat :=
   [49, 32, 48, 32, 45, 49, 13, 10, 32, 32, 32, 32, 32, 50, 32, 105, 109, 112, 58, 110, 61, 49, 13, 10]
 def exCfg : Cfg := ⟨128, .cell, ['x'], [['x']]⟩
 
-example : FileOK 128 0 (fileLines exLayoutA) ["1 0 -1 &  ".toList, "2 imp:n=1".toList] :=
-  exFileOK 0 (by decide) _ exLayoutA (by decide) (by decide)
-example : FileOK 128 0 (fileLines exLayoutB) ["1 0 -1".toList, "     2 imp:n=1".toList] :=
-  exFileOK 0 (by decide) _ exLayoutB (by decide) (by decide)
+example : FileOK 128 (fileLines exLayoutA) ["1 0 -1 &  ".toList, "2 imp:n=1".toList] :=
+  exFileOK _ exLayoutA (by decide) (by decide)
+example : FileOK 128 (fileLines exLayoutB) ["1 0 -1".toList, "     2 imp:n=1".toList] :=
+  exFileOK _ exLayoutB (by decide) (by decide)
 example : Spec.inputsFrom 128 0 ["1 0 -1 &  ".toList, "2 imp:n=1".toList] =
     Spec.inputsFrom 128 0 ["1 0 -1".toList, "     2 imp:n=1".toList] := by decide
 example : proj (readData exCfg (fileLines exLayoutA)) =
@@ -383,5 +417,30 @@ def exItemsPlain : List (Spec.InputLayout × List Spec.Word) :=
 example : exItems.map (·.2) = exItemsPlain.map (·.2) := by decide
 example : proj (readData exCfg ((Spec.renderInputs exItems).map (· ++ ['\n']))) =
     proj (readData exCfg ((Spec.renderInputs exItemsPlain).map (· ++ ['\n']))) := by decide
+
+/-! ### non-vacuity of `C11_after_terminator`: the replay of the repaired finding C11-F1 (`corpus/C11/trailing_content.json`):
+    `1 0 -1⏎⏎1 so 5⏎⏎mode n⏎⏎` followed by `c MCNP ignores …⏎nps 77⏎` -/
+
+/-- `"1 0 -1\n\n1 so 5\n\nmode n\n\n"` -/
+def exThreeBlocks : List Nat :=
+  [49, 32, 48, 32, 45, 49, 10, 10, 49, 32, 115, 111, 32, 53, 10, 10, 109, 111, 100, 101, 32, 110, 10, 10]
+/-- `"c x\nnps 77\n"` -/
+def exJunk : List Nat := [99, 32, 120, 10, 110, 112, 115, 32, 55, 55, 10]
+
+example : stopsWithin exCfg (initState exCfg) (fileLines exThreeBlocks) = true := by decide
+example : fileLines (exThreeBlocks ++ exJunk) = fileLines exThreeBlocks ++ fileLines exJunk := by decide
+example : proj (readData exCfg (fileLines (exThreeBlocks ++ exJunk))) =
+    [.inp ⟨0, ["1".toList, "0".toList, "-1".toList]⟩, .inp ⟨1, ["1".toList, "so".toList, "5".toList]⟩,
+     .inp ⟨2, ["mode".toList, "n".toList]⟩] := by decide
+/-- … and the Spec ignores the same text -/
+example : Spec.inputsFrom 128 0 ["1 0 -1".toList, [], "1 so 5".toList, [], "mode n".toList, [], "c x".toList, "nps 77".toList] =
+    [⟨0, ["1".toList, "0".toList, "-1".toList]⟩, ⟨1, ["1".toList, "so".toList, "5".toList]⟩,
+     ⟨2, ["mode".toList, "n".toList]⟩] := by decide
+/-- inside a file pulled in by a read card of the data block the first blank line already is that terminator -/
+example : proj (readData ⟨128, .data, ['d'], [['m'], ['d']]⟩ (fileLines [99, 116, 109, 101, 32, 53, 10, 10, 112, 114, 105, 110, 116, 10])) =
+    [.inp ⟨2, ["ctme".toList, "5".toList]⟩] := by decide
+/-- a `#` that does not start the line is plain data (fix 453a5e4): `2 0 #1` -/
+example : proj (readData exCfg (fileLines [50, 32, 48, 32, 35, 49, 10])) = [.inp ⟨0, ["2".toList, "0".toList, "#1".toList]⟩] := by decide
+example : firstRaise (readData exCfg (fileLines [32, 35, 32, 49, 10])) = some .unsupported := by decide
 
 end MontePyVerif.C11
